@@ -683,6 +683,7 @@ func c02Kernels(c *hx.Ctx) {
 		c.Case("jll-opt "+c02IntsStr(fs), real)
 		c.Count(fmt.Sprintf("opt-deep:%d:%s", nsym, real[:2]))
 	}
+	c02OptDeepFamily(c)
 	// jll-canon / jll-hdec: standard, optimal, random valid, invalid tables
 	var lumBits [16]int
 	copy(lumBits[:], []int{0, 1, 5, 1, 1, 1, 1, 1, 1, 0, 0, 0, 0, 0, 0, 0})
@@ -731,7 +732,18 @@ func c02Kernels(c *hx.Ctx) {
 		}
 		c.Eval(fmt.Sprintf("opt|%v", freq), true)
 		if pan {
-			c02Fail(c, hx.Failure{Class: "jll-opt-panic", What: "BuildOptimalHuffmanTable panics: " + msg, Input: map[string]any{"freq": fmt.Sprint(freq)}})
+			// optimal_table_depth_from_total: no panic is possible below a total of fib 35 - 1 counted symbols;
+			// above it a code size may exceed 32 and the bits[size] panic is the documented behaviour (the model
+			// panics on the same input: the jll-opt line above), outside the lossless alphabet's reach
+			var total uint64
+			for _, v := range freq {
+				total += v
+			}
+			if total+1 < 9227465 {
+				c02Fail(c, hx.Failure{Class: "jll-opt-panic", What: "BuildOptimalHuffmanTable panics below the depth-32 total bound: " + msg, Input: map[string]any{"freq": fmt.Sprint(freq)}})
+			} else {
+				c.Count("opt:panic-above-fib35-total")
+			}
 			continue
 		}
 		ok, strict := c02ValidTable(ot.Bits, ot.Values)
@@ -778,6 +790,129 @@ func c02Kernels(c *hx.Ctx) {
 			}
 			c02CanonCase(c, ib, iv, "random-any")
 			c02HdecCase(c, ib, iv, "random-any")
+		}
+	}
+}
+
+
+// c02FibExact builds a one-row image (w = number of samples, h = 1) of nc components at precision p whose
+// horizontal differences (predictor 1 / SV1; also every predictor's first-line rule in the standard) use ALL
+// p+1 difference categories 0..p with exact Fibonacci counts (category k occurs fib[p-k] times, in random
+// order): the per-image optimal table then has pre-limit code sizes up to p+1 (> 16 for p = 16), which
+// exercises the length-limiting loop and the value collection of BuildOptimalHuffmanTable.
+func c02FibExact(r *hx.Rand, nc, p int) c02Img {
+	fib := []int{1, 1, 2, 3, 5, 8, 13, 21, 34, 55, 89, 144, 233, 377, 610, 987, 1597}
+	var cats []int
+	for k := 0; k <= p; k++ {
+		for j := 0; j < fib[p-k]; j++ {
+			cats = append(cats, k)
+		}
+	}
+	// the first sample is coded against 2^(P-1): make it category 0 by starting there
+	im := c02NewImg(len(cats)+1, 1, nc, p)
+	mask := 1<<uint(p) - 1
+	for c := 0; c < nc; c++ {
+		for i := len(cats) - 1; i > 0; i-- {
+			j := r.Intn(i + 1)
+			cats[i], cats[j] = cats[j], cats[i]
+		}
+		cur := 1 << uint(p-1)
+		im.S[c][0] = cur
+		for i, k := range cats {
+			d := 0
+			if k > 0 {
+				d = 1<<uint(k-1) + r.Intn(1<<uint(k-1))
+				if k == 16 {
+					d = 32768
+				} else if r.Bool() {
+					d = -d
+				}
+			}
+			cur = (cur + d) & mask
+			im.S[c][i+1] = cur
+		}
+	}
+	return im
+}
+
+// c02OptDeepFamily: correspondence family for BuildOptimalHuffmanTable on DEEP-TREE frequency vectors over
+// 20..162 symbols (the baseline/extended AC alphabet sizes): Fibonacci-like and geometric profiles, with ties
+// and jitter, spread over random byte values. Pre-limit code sizes reach 17..32 (length-limiting loop,
+// Figure K.3, value collection over sizes 1..32) and, for a few vectors, exceed 32 (the bits[size] index
+// panic: outcome class must agree). Exported for other properties' harnesses (C11 calls it; its driver must
+// include Drv.JpegLossless.step? for the `jll-opt` op).
+func c02OptDeepFamily(c *hx.Ctx) {
+	sizes := []int{20, 24, 31, 33, 48, 64, 100, 128, 162}
+	rounds := 2
+	if c.Thorough() {
+		rounds = 12
+	}
+	for rd := 0; rd < rounds; rd++ {
+		for _, n := range sizes {
+			for profile := 0; profile < 5; profile++ {
+				var freq [256]uint64
+				perm := make([]int, 256)
+				for i := range perm {
+					perm[i] = i
+				}
+				for i := 255; i > 0; i-- {
+					j := c.R.Intn(i + 1)
+					perm[i], perm[j] = perm[j], perm[i]
+				}
+				depth := 17 + c.R.Intn(15) // deep part: 17..31 symbols on a skewed spine
+				if profile == 4 {
+					depth = 33 + c.R.Intn(8) // beyond maxHuffmanCodeLength: panic expected
+				}
+				if depth > n {
+					depth = n
+				}
+				a, b := uint64(1), uint64(1)
+				for s := 0; s < n; s++ {
+					var v uint64
+					switch {
+					case s >= depth: // the rest of the alphabet: small equal-ish counts (bushy part)
+						v = 1 + uint64(c.R.Intn(3))
+					case profile == 0: // Fibonacci
+						v = a
+						a, b = b, a+b
+					case profile == 1 || profile == 4: // doubling (distinct powers of two): maximally skewed; depth = number of spine symbols
+						v = uint64(1) << uint(s+1)
+					case profile == 2: // Fibonacci with jitter
+						v = a + uint64(c.R.Intn(int(a/4)+1))
+						a, b = b, a+b
+					default: // ~1.7^s
+						v = a
+						a = a + a*7/10 + 1
+					}
+					freq[perm[s]] = v
+				}
+				var ot *standard.HuffmanTable
+				pan, _ := hx.Guard(func() { ot = standard.BuildOptimalHuffmanTable(freq) })
+				fs := make([]int, 256)
+				for s := range fs {
+					fs[s] = int(freq[s])
+				}
+				real := "panic"
+				if !pan {
+					real = "ok " + c02TableOp(ot.Bits, ot.Values)
+					maxLen := 0
+					for l := 0; l < 16; l++ {
+						if ot.Bits[l] > 0 {
+							maxLen = l + 1
+						}
+					}
+					c.Count(fmt.Sprintf("opt-deep-family:maxlen:%02d", maxLen))
+					// validity of the real output (searched; the theorem covers depth <= 32)
+					ok, strict := c02ValidTable(ot.Bits, ot.Values)
+					c.Eval(fmt.Sprintf("optdeep|%v", freq), true)
+					if !ok || !strict || len(ot.Values) != n {
+						c02Fail(c, hx.Failure{Class: "std-opt-invalid-deep", What: fmt.Sprintf("BuildOptimalHuffmanTable output invalid on a deep %d-symbol profile (valid=%v strict=%v values=%d)", n, ok, strict, len(ot.Values)),
+							Input: map[string]any{"freq": fmt.Sprint(freq)}, Actual: c02TableOp(ot.Bits, ot.Values)})
+					}
+				}
+				c.Case("jll-opt "+c02IntsStr(fs), real)
+				c.Count("opt-deep-family:" + real[:2])
+			}
 		}
 	}
 }
@@ -855,6 +990,14 @@ func c02Search(c *hx.Ctx) {
 					}
 					c02RoundTrip(c, codec, c02Content(c.R, w, h, nc, p, cl), cl)
 				}
+			}
+		}
+	}
+	// 2b. exact Fibonacci category profiles (all P+1 categories, pre-limit code sizes up to P+1)
+	for _, p := range []int{12, 15, 16} {
+		for _, nc := range []int{1, 3} {
+			for _, codec := range []int{1, 8, 4, 0} {
+				c02RoundTrip(c, codec, c02FibExact(c.R, nc, p), "fib-exact")
 			}
 		}
 	}
